@@ -83,7 +83,24 @@ def front_call(case, ro):
     except Exception as e:
         outcome = "EXC:%s" % type(e).__name__
     changed = [k for k, v in args.items() if snap(v) != before[k]]
+    if not ro:
+        for k, v in args.items():
+            if isinstance(v, (np.ndarray, list)) and k not in changed:
+                HELD.append((k, v, before[k], case.get("fail")))
+        del HELD[:-12]
     return outcome, changed
+
+
+HELD = []   # caller-owned arguments of earlier calls, kept alive: a later call must not touch them either
+
+
+def verify_held(res, case, label):
+    for k, v, s0, _ in HELD:
+        if snap(v) != s0:
+            res.violation("%s: the %s argument of an EARLIER call was modified by a later call (stale reference kept by the library)" % (label, k), case)
+            del HELD[:]
+            return
+    res.count("held_arguments_rechecked", len(HELD))
 
 
 def run_front(spec, res):
@@ -97,7 +114,7 @@ def run_front(spec, res):
         case["data"]["flavor"] = fl
         if rng.random() < 0.6:
             case["lam"] = dict(form=["matrix_const", "matrix_rand"][int(rng.integers(0, 2))], value=0.3, seed=int(rng.integers(0, 999)))
-        if not joint and rng.random() < 0.6:
+        if rng.random() < 0.6:
             case["beta"] = dict(form=["vector_const", "vector_rand"][int(rng.integers(0, 2))], value=5.0, seed=int(rng.integers(0, 999)))
         fail = [None, None, "task", "bad_lambda_shape", "short", "swap"][int(rng.integers(0, 6))]
         if fail == "task":
@@ -137,6 +154,17 @@ def check_front(res, case):
         res.count("failing_calls")
     else:
         res.count("returning_calls")
+    verify_held(res, case, "front end")
+    if case["beta"]["form"].startswith("vector") and not case.get("followup_done"):
+        # same data and shapes again, this time with a scalar switching cost: nothing handed over earlier may change
+        c2 = dict(case)
+        c2["beta"] = dict(form="float", value=3.0)
+        c2["followup_done"] = True
+        c2["task_plan"] = {}
+        front_call(c2, ro=False)
+        res.evaluations += 1
+        res.count("scalar_followup_calls")
+        verify_held(res, case, "front end (scalar call after a vector call)")
 
 
 def cb_halve(rho, rp, tp, rd, td):
@@ -213,7 +241,7 @@ def run_direct(spec, res):
             case = dict(what="direct", target="admm", rng=[int(v) for v in spec["seed"]] + [i], N=N, W=W,
                         cov=["full", "rankdef", "diag"][int(rng.integers(0, 3))], order=["C", "F"][int(rng.integers(0, 2))],
                         lam=dict(form=["float", "matrix_const", "matrix_rand"][int(rng.integers(0, 3))], value=0.3, seed=i),
-                        rho=float(rng.choice([0.5, 1, 3])), cb=bool(rng.integers(0, 2)), bad=bool(rng.random() < 0.1))
+                        rho=float(rng.choice([0.5, 1, 1, 3])), cb=bool(rng.integers(0, 2)), bad=bool(rng.random() < 0.1))
         else:
             case = dict(what="direct", target="label", rng=[int(v) for v in spec["seed"]] + [i], T=int(rng.integers(1, 40)),
                         K=int(rng.integers(1, 6)), order=["C", "F"][int(rng.integers(0, 2))] if not spec.get("jit") else "C",
@@ -242,7 +270,7 @@ def finalize(merged, tier):
     out = {"inconclusive": []}
     q = tier == "quick"
     c = merged["counters"]
-    for key, least in (("returning_calls", 20 if q else 200), ("failing_calls", 15 if q else 150), ("admm_calls", 100 if q else 1000),
+    for key, least in (("scalar_followup_calls", 8 if q else 80), ("held_arguments_rechecked", 100 if q else 1000), ("returning_calls", 20 if q else 200), ("failing_calls", 15 if q else 150), ("admm_calls", 100 if q else 1000),
                        ("label_calls", 300 if q else 3000)):
         if c.get(key, 0) < least:
             out["inconclusive"].append("monitor counter %s=%d below %d" % (key, c.get(key, 0), least))
